@@ -263,7 +263,7 @@ CLAIMS = {
          "line:column rendering exact, parse twice identical, no panic, no hang, deep nesting in child processes.",
     design_ref="§5 C12, §C12 — as built",
     note="Only validated, not proved: that logos' generated automaton is 'longest match, then priority' (L1 tie on exhaustive strings <=3 over 34 symbols, "
-         "<=4..8 over smaller alphabets, corpus, mutants, random); that file::file's event list is balanced with enough Advances (checked on every real "
+         "<=4..8 over smaller alphabets, a special-character alphabet (U+FEFF, Cf/Zs/Zl, NUL, NEL, CR, FF) and 27 special prefixes/suffixes/infixes on short texts and corpus files, corpus, mutants, random); that file::file's event list is balanced with enough Advances (checked on every real "
          "event list, owned by C04); determinism (parse twice). Trusted: Lean kernel, extract.py's regex-subset parser, harness serialisation, "
          "rowan/logos as observed. Known finding: stack overflow (abort, no tree) at ~10^5 nested '(' or '!'.",
     technique="Lean 4 proof (induction over token loop / event list, Brzozowski-derivative correctness, UTF-8 arithmetic) + table translator + "
